@@ -390,7 +390,7 @@ for _p, _t in ADDENDA.items():
 # Two or three simulated threads, each with containers of its own, interleaved INSIDE library functions at basic-block
 # granularity (the "work" variant's trace-pc callback is the preemption point); each thread's results and container
 # structures must be exactly what it sees when it runs alone. See DESIGN.md 11.8.
-PAR_MODES = {"C01": 1, "C02": 2, "C03": 3, "C05": 5, "C07": 7, "C08": 8, "C09": 9, "C10": 10, "C11": 11, "C12": 12, "C13": 13}
+PAR_MODES = {"C01": 1, "C02": 2, "C03": 3, "C05": 5, "C07": 7, "C08": 8, "C09": 9, "C10": 10, "C11": 11, "C12": 12, "C13": 13, "C14": 14}
 PAR_ASSUMPTION = ("the property is taken to hold for each thread's own objects whatever other threads do with theirs: a batch of runs (world 'par') "
                   "interleaves 2-3 simulated threads, each with containers and elements of its own, inside library functions at basic-block granularity "
                   "(preemption points from -fsanitize-coverage=trace-pc in the 'work' build variant; uniform and park-and-overtake schedules from the seed) "
